@@ -47,6 +47,10 @@ static void prop(Tape &t, Ctx &c) {
     Config vc; vc.client = true; vc.versions = also13 ? (sv.ver == TLS12 ? std::vector<int>{ TLS13, TLS12 } : std::vector<int>{ TLS13, TLS12, TLS11 }) : std::vector<int>{ sv.ver }; vc.auth = AUTH_RSA; vc.entropy_stream = 1; vc.suites = offer;
     if (cflags) vc.tweak = [cflags](sslSessOpts_t &o) { o.ecFlags = cflags; };
     pup::Config pc; pc.role = pup::SERVER; pc.version = sv.wire; pc.suite = S; pc.seed = seed; pc.pki_dir = verif_dir() + "/pki"; pc.dtls = sv.dtls; pc.ems = t.coin();
+    // extended master secret: a client that requires it must not complete when the server does not acknowledge it
+    int cems = (int) t.below(4); cems = cems == 0 ? -1 : cems == 1 ? 1 : 0; vc.ems = cems;
+    bool ems_refused = cems == 1 && (!pc.ems || no_ext);
+    desc += fmt(" client-ems=%d server-acks-ems=%d", cems, pc.ems && !no_ext);
     if (sentinel) pc.server_random_tail = { 'D', 'O', 'W', 'N', 'G', 'R', 'D', (uint8_t) (sentinel == 1 ? 1 : 0) };
     pc.server_no_extensions = no_ext;
     Endpoint V; if (V.open(vc) < 0) { c.count("client-session-refused"); return; }
@@ -63,9 +67,11 @@ static void prop(Tape &t, Ctx &c) {
     if (c.verbose) fprintf(stderr, "  client done=%d rc=%d negotiated=%04x puppet: fin_ok=%d alert=%d err=%s\n", done, V.last_rc, neg, P.peer_finished_ok(), P.fatal_alert() ? P.alert_desc() : -1, P.error().c_str());
     c.count(done ? "client-completed" : "client-refused");
     c.count(offered ? "suite-was-offered" : "suite-was-not-offered"); if (ecdhe && !curve_ok) c.count("ecdhe-curve-not-enabled-by-client");
+    if (ems_refused) c.count(no_ext ? "ems-required-serverhello-without-extensions" : "ems-required-not-acknowledged");
     if (sentinel) c.count(no_ext ? "downgrade-sentinel-without-extensions" : "downgrade-sentinel-with-extensions");
     if (done) {
         VF_CHECK(!sentinel, "downgrade-sentinel-ignored", "a client that enables TLS 1.3 completed a %s handshake although ServerHello.random ends in the downgrade sentinel; %s", ver_name(sv.ver), desc.c_str());
+        VF_CHECK(!ems_refused, "ems-required-by-client-but-not-used", "client requires extended master secret, the server did not acknowledge it, and the handshake completed; %s", desc.c_str());
         VF_CHECK(offered, "negotiated-suite-not-offered-by-client", "client completed on suite %04x chosen by the server although its ClientHello did not offer it; %s", neg, desc.c_str());
         VF_CHECK(neg == S, "endpoints-disagree-on-parameters", "client reports %04x, server ran %04x; %s", neg, S, desc.c_str());
         VF_CHECK(curve_ok, "key-exchange-group-not-offered-by-client", "client completed an ECDHE exchange on secp256r1, which its session options do not enable; %s", desc.c_str());
@@ -74,7 +80,7 @@ static void prop(Tape &t, Ctx &c) {
         VF_CHECK(V.delivered == ad.payload, "application-data-did-not-round-trip", "server data not delivered; %s", desc.c_str());
         Bytes up = { 'w', 'o', 'r', 'l', 'd', '!' }; V.send(up); from_victim();
         VF_CHECK(P.app_in() == up, "application-data-did-not-round-trip", "client data not received by the server (%s); %s", P.error().c_str(), desc.c_str());
-    } else if (offered && curve_ok && !sentinel) {
+    } else if (offered && curve_ok && !sentinel && !ems_refused) {
         VF_CHECK(false, "offered-suite-refused", "server chose an offered suite (and an enabled curve) but the client did not complete (rc=%d, alert to server %d, puppet: %s); %s", V.last_rc, P.fatal_alert() ? P.alert_desc() : -1, P.error().c_str(), desc.c_str());
     }
     c.nontrivial(fmt("%d|%04x|%d|%d|%zu|%d%d%d", sv.ver, S, offered, curve_ok, offer.size() > 3 ? 4 : offer.size(), also13, sentinel, no_ext));
